@@ -251,13 +251,48 @@ def main():
         sys.exit(1 if r["reproduced"] else 0)
     checks = load_checks()
     if args[0] == "--setup":
-        # nothing has to be built ahead of time: every check recompiles /repo from the
-        # working tree. Verify the tools are present.
+        # Every check recompiles /repo from the working tree; setup only verifies the tools and
+        # warms the build caches (dependencies of every harness crate), which saves each quick
+        # check about two minutes on a fresh copy. Warm-up failures are not fatal.
         for tool in (["cargo", "kani", "--version"], ["cbmc", "--version"]):
             rc, out, _ = sh(tool)
             print(" ".join(tool), "->", out.strip().splitlines()[-1] if out.strip() else rc)
             if rc != 0:
                 sys.exit(2)
+        import threading
+
+        def warm(crate, opts):
+            crate_dir = os.path.join(ROOT, "harness", crate)
+            gen = opts.get("generate")
+            if gen:
+                sh(["python3"] + gen, cwd=crate_dir)
+            names = sorted(all_harnesses(crate_dir))
+            if not names:
+                return
+            tdir = os.path.join(TARGET, crate)
+            lock_src = os.path.join(REPO, "Cargo.lock")
+            if os.path.exists(lock_src) and not os.path.exists(os.path.join(crate_dir, "Cargo.lock")):
+                shutil.copy(lock_src, os.path.join(crate_dir, "Cargo.lock"))
+            qual = all_harnesses(crate_dir)
+            cmd = ["cargo", "kani", "--target-dir", tdir, "--only-codegen", "--exact", "--harness", qual[names[0]]]
+            if opts.get("stubbing"):
+                cmd += ["-Z", "stubbing"]
+            rc, out, w = sh(cmd, cwd=crate_dir, timeout=1500)
+            print("warm %s: rc=%s %.0fs" % (crate, rc, w))
+            ndir = os.path.join(crate_dir, "native")
+            if os.path.isdir(ndir):
+                if os.path.exists(lock_src) and not os.path.exists(os.path.join(ndir, "Cargo.lock")):
+                    shutil.copy(lock_src, os.path.join(ndir, "Cargo.lock"))
+                rc, out, w = sh(["cargo", "build", "--offline", "--release", "--target-dir", os.path.join(TARGET, crate + "_native"), "--bin", "replay"], cwd=ndir, timeout=1500)
+                print("warm %s native: rc=%s %.0fs" % (crate, rc, w))
+
+        ths = [threading.Thread(target=warm, args=(c, o)) for c, o in checks["crates"].items()]
+        rc, out, w = sh(["cargo", "build", "--offline", "--release", "--target-dir", os.path.join(TARGET, "modelcheck")], cwd=os.path.join(ROOT, "modelcheck"))
+        print("warm modelcheck: rc=%s %.0fs" % (rc, w))
+        for t in ths:
+            t.start()
+        for t in ths:
+            t.join()
         sys.exit(0)
     prop = args[0]
     tier = args[1] if len(args) > 1 else os.environ.get("VERIF_TIER", "quick")
